@@ -36,7 +36,7 @@ TEXT = {
     "C19": dict(
         level="Model checking of the hook transport: the complete status x header x body x mode x cache table on the real Call, and an exhaustive schedule enumeration (all interleavings of 2-3 concurrent calls sharing a cache key, at phase granularity, under every server-content-change pattern) with the oracle 'a successful 304 uses the body cached with exactly the ETag this call sent'.",
         note="No sockets: scripted HTTP client. Phase granularity is complete because each phase performs at most one cache operation.",
-        technique="exhaustive schedule enumeration (cooperative scheduler over the real code) + bounded-exhaustive input table",
+        technique="exhaustive schedule enumeration (cooperative scheduler over the real code) + bounded-exhaustive input table + all call sequences to depth 3/4 against a reference model of the ETag cache",
     ),
     "C15": dict(
         level="Bounded-exhaustive model checking of the customize path: every rule set of one or two rules from the selection alphabet is evaluated by the real manager inside real syncs; the related map of the logged sync and finalize requests is compared with an independent evaluation of the rules, plus error-not-silent-choice, at-most-one customize call per UID+generation, and wake-up agreement clauses.",
@@ -46,7 +46,7 @@ TEXT = {
     "C05": dict(
         level="Bounded-exhaustive model checking of the pure merge functions: complete cubes of JSON triples over finite universes (10^6 quick, 10^8 thorough) are pushed through the real Merge/ApplyUpdate and compared with a reference of the documented convention, plus idempotence (no write on re-apply), purity (inputs untouched), totality (no panic) and the ApplyUpdate laws (system metadata, status, last-applied record).",
         note="Universe depth <= 3 with 2 keys per level, lists of length <= 3; unbounded random/fuzzed inputs are not claimed.",
-        technique="bounded-exhaustive input enumeration (complete cubes over finite universes) against a reference model",
+        technique="bounded-exhaustive input enumeration (complete cubes over finite universes) against a reference model + explicit-state search over changes of the desired state through the real sync with a differential (fresh start) oracle, closed to a fixpoint",
     ),
     "C10": dict(
         level="Explicit-state model checking (BFS with snapshot/restore of store and caches, deduplicated by a canonical form) of the parent life cycle against the real composite and decorator controllers: every transition is a real sync or an environment step; temporal monitors F1-F7 (finalizer before first child, never added to a deleting parent, right hook with the right finalizing flag, removal only after finalized:true, children follow the finalize answer, no child writes for a dying parent without finalizer/hook or with a GC finalizer, leftover finalizer removed) run on the request and hook logs of every sync.",
@@ -56,12 +56,12 @@ TEXT = {
     "C01": dict(
         level="Bounded-exhaustive model checking of reconciliation histories: every scenario of the product configuration x hook program x initial cluster contents (x stale-cache deviations) is driven through real syncs until nothing changes; oracle = independent fixpoint (hook program evaluated on the final cluster: owned set equals desired set, hook-specified fields have the hook's values where the strategy permits updates), bounded rounds, and quiescence (a further sync leaves the store byte-identical and sends no child write).",
         note="Hook programs are pure. Values: one owned field, one foreign field. The quick tier is a covering sub-product, the thorough tier the full product.",
-        technique="bounded-exhaustive enumeration of scenarios, each executed to a fixpoint on the real code; differential fixpoint oracle",
+        technique="bounded-exhaustive enumeration of scenarios, each executed to a fixpoint on the real code; differential fixpoint oracle; explicit-state search over changes of the desired state (fixpoint: change sequences of any length) with a fresh-start differential oracle",
     ),
     "C08": dict(
         level="Bounded-exhaustive model checking of complete rollouts under a fair environment: every rollout of the product (children, scopes, method, status checks, selector generation, injection index of a second spec change) is run to completion on the real controller; oracle = completion within the linear bound, Updated=True, exactly one ControllerRevision left, and a stall detector (RolloutWaiting 'missing child' for a child that was in the cache).",
         note="Liveness is checked as bounded liveness (sync count bound), never by wall-clock. Health is a single Ready condition plus observedGeneration.",
-        technique="bounded-exhaustive enumeration of fair histories executed on the real code (explicit-state, linear schedules x injection index)",
+        technique="bounded-exhaustive enumeration of fair histories executed on the real code (explicit-state, linear schedules x injection index) + breadth-first search over rollout histories (spec changes, syncs, child deletions; depth 6/8) with a convergence-to-fresh-start check from every reached state",
     ),
     "C07": dict(
         level="Bounded-exhaustive model checking over rollout states: every combination of revision assignment, child content and child health (a superset of the reachable rollout states, each built with the controller's own constructors) is synced once by the real controller; oracle = clauses written from the statement: M0 no double claim, M1 at most one real move and in hook order, M2 only through an open gate (observed, up to date, status checks, observedGeneration for RollingInPlace), M3 every child reconciled to the content of the revision it is assigned to (incl. recreation at an old revision), M4 non-revisioned fields reach all children at once, M5 Updated condition Waiting/Progressing/OnLatest.",
